@@ -1,17 +1,20 @@
 #!/bin/sh
-# usage: seed_eval.sh <seed id> <property> [<property>...]  -- applies the seeded patch to /repo, runs the quick checks, undoes it
+# usage: seed_eval.sh <seed id> <property> [<property>...]
+# Applies the seeded patch to a scratch worktree of /repo's HEAD (under /tmp, removed afterwards) and runs the quick
+# checks against it (GOSMT_REPO_DIR, a development aid: such a run leaves evidence/ and the committed witnesses alone).
+# /repo itself is not touched, so a background run that reads it is not disturbed.
 id=$1; shift
 cd /verif
-git -C /repo diff --quiet || { echo "/repo is dirty"; exit 2; }
+wt=/tmp/seed-eval-$id
+git -C /repo worktree remove --force $wt 2>/dev/null; rm -rf $wt
+git -C /repo worktree add -q --detach $wt HEAD || exit 2
 patch=/verif/seeded/$id/patch.diff
 [ -f /verif/seeded/$id/patch_adapted_to_current_tree.diff ] && patch=/verif/seeded/$id/patch_adapted_to_current_tree.diff   # later repairs touched the same lines
-git -C /repo apply $patch || exit 2
+git -C $wt apply $patch || { git -C /repo worktree remove --force $wt; exit 2; }
+mkdir -p /verif/.work/logs
 for p in "$@"; do
-  cp /verif/evidence/$p.json /verif/.work/evidence-$p.keep 2>/dev/null   # the seeded run must not replace the evidence of the unchanged tree
-  ./check $p quick > /verif/.work/logs/seed-$id-$p.log 2>&1
+  GOSMT_REPO_DIR=$wt ./check $p quick > /verif/.work/logs/seed-$id-$p.log 2>&1
   echo "seed $id check $p rc=$? violations=$(grep -c '^VIOLATION' /verif/.work/logs/seed-$id-$p.log) $(grep '^gosmt: .* done' /verif/.work/logs/seed-$id-$p.log | sed 's/.*done in //')"
-  mv /verif/.work/evidence-$p.keep /verif/evidence/$p.json 2>/dev/null
   grep -A1 '^VIOLATION' /verif/.work/logs/seed-$id-$p.log | grep 'harness=' | sed 's/ native=.*draws=/ draws=/' | cut -c1-260 | head -4
 done
-git -C /repo checkout -- .
-git -C /repo status --short | head -3
+git -C /repo worktree remove --force $wt; git -C /repo worktree prune
